@@ -408,6 +408,7 @@ FILTERS = ("upper", "lower", "length", "first", "last", "join(',')", "trim", "st
 TESTS = ("defined", "undefined", "none", "string", "number", "iterable", "mapping", "odd", "even", "sequence", "callable",
          "true", "false", "boolean", "integer", "lower", "upper")
 TESTS1 = ("sameas", "eq", "ne", "lt", "gt", "in", "divisibleby")
+MEMBER_WORDS = ("a", "b", "c", "lib", "base", "s", "x y", "Ab", "alpha", "beta", "k2", "id", "class", "e1", "f1", "g1", "é", "")
 FIXED = {
     "lib": "{% macro mm(a, b=x) %}[{{ a }}{{ b }}{{ y }}{{ varargs }}]{% endmacro %}{% set p = x %}{% set q = 'q' %}"
            "{% macro cc() %}({{ caller(z) }}){% endmacro %}{{ z }}",
@@ -482,8 +483,15 @@ class _LGen:
     def expr(self, lx, d=2):
         if d <= 0 or self.chance(1, 3):
             return self.atom(lx)
-        k = self.pick(("cat", "cond", "cond1", "test", "filt", "filt", "filts", "call", "list", "tuple", "dict", "attr",
-                       "item", "cmp", "bool", "not", "add", "range"))
+        kinds = ("cat", "cond", "cond1", "test", "filt", "filt", "filts", "call", "list", "tuple", "dict", "attr",
+                 "item", "cmp", "bool", "not", "add", "range")
+        if self.rich:  # C30 only (keeps C32's stream as validated): membership in a literal sequence of strings
+            kinds += ("member", "member")
+        k = self.pick(kinds)
+        if k == "member":
+            ws = self.draw(st.lists(st.sampled_from(MEMBER_WORDS), min_size=2, max_size=6, unique=True))
+            seq = ", ".join("'%s'" % w for w in ws)
+            return "(%s %s %s)" % (self.name(), self.pick(("in", "not in")), ("(%s)" if self.chance(1, 2) else "[%s]") % seq)
         if k == "cat":
             return "(%s ~ %s)" % (self.expr(lx, d - 1), self.expr(lx, d - 1))
         if k == "cond":
